@@ -239,7 +239,7 @@ def gen_tree(rng, with_ph=True, circ=False):
                 w = rng.choice(["", w]) + "${" + k + rng.choice(["", "", ":" + rng.choice(CANON_DEFAULTS[:8])]) + "}" + rng.choice(["", w])
             return w
         if r < 0.55:
-            return rng.choice([0, 1, 7, -3, 8080, 65535, 1000000, 123456789, 2 ** 31, -2 ** 63, 2 ** 63 - 1])
+            return rng.choice([0, 1, 7, -3, 8080, 65535, 1000000, 123456789, 2 ** 31, -2 ** 63, 2 ** 63 - 1, 2 ** 53, 99999])
         if r < 0.65:
             return norm_dec(*rng.choice([(15, -1), (25, -2), (-5, -1), (1, -3), (123456, -2), (1, 6), (314159, -5), (1, -5)]))
         if r < 0.72:
@@ -516,11 +516,22 @@ def corpus():
     cs.append({"kind": "e2e", "sig": "$", "tree": tree, "tagkey": "value", "tagtext": hx("${test.${env}.host:none} ${test.${env3:local}.host}"),
                "ftype": "string", "deps": [], "stream": "ast", "noncanon": None,
                "ast": [ph(lit("test."), ph(lit("env")), lit(".host:none")), lit(" "), ph(lit("test."), ph(lit("env3:local")), lit(".host"))]})
-    # present-but-empty map / list: the default wins
-    cs.append({"kind": "e2e", "sig": "$", "tree": {"m": {}, "l": [], "n": None}, "tagkey": "value",
-               "tagtext": hx("${m:dm}|${l:dl}|${n:dn}|${m}|${l}|${n}|,required=false"), "ftype": "string", "deps": [], "stream": "ast", "noncanon": None,
-               "ast": [ph(lit("m:dm")), lit("|"), ph(lit("l:dl")), lit("|"), ph(lit("n:dn")), lit("|"), ph(lit("m")), lit("|"), ph(lit("l")), lit("|"),
+    # present-but-empty map / list: the default wins (strict: the denotational oracle applies)
+    cs.append({"kind": "e2e", "sig": "$", "tree": {"m": {}, "l": [], "n": None, "s": ""}, "tagkey": "value",
+               "tagtext": hx("${m:dm}|${l:dl}|${n:dn}|${s:ds}|${n}|,required=false"), "ftype": "string", "deps": [], "stream": "ast",
+               "noncanon": None,
+               "ast": [ph(lit("m:dm")), lit("|"), ph(lit("l:dl")), lit("|"), ph(lit("n:dn")), lit("|"), ph(lit("s:ds")), lit("|"),
                        ph(lit("n")), lit("|")]})
+    # ... and without a default the (empty) value itself is rendered
+    cs.append({"kind": "e2e", "sig": "$", "tree": {"m": {}, "l": [], "n": None}, "tagkey": "value",
+               "tagtext": hx("${m}|${l}|${n}|${m:}|,required=false"), "ftype": "string", "deps": [], "stream": "ast", "noncanon": None,
+               "ast": [ph(lit("m")), lit("|"), ph(lit("l")), lit("|"), ph(lit("n")), lit("|"), ph(lit("m:")), lit("|")]})
+    # split at the FIRST colon; nested default
+    cs.append({"kind": "e2e", "sig": "$", "tree": {"a": {"b": "v"}}, "tagkey": "value",
+               "tagtext": hx("${nope:http://h:80/p}|${a.${zz:b}:x:y}|${zz:${a.b}:w},required=false"), "ftype": "string", "deps": [],
+               "stream": "ast", "noncanon": None,
+               "ast": [ph(lit("nope:http://h:80/p")), lit("|"), ph(lit("a."), ph(lit("zz:b")), lit(":x:y")), lit("|"),
+                       ph(lit("zz:"), ph(lit("a.b")), lit(":w"))]})
     # known-finding witnesses (one per class)
     for d, cls in [("007", "a"), ("1000000", "a"), ("TRUE", "b"), ("'q'", "c"), ("[a,b]", "d"), ("map[a:b]", "d"), ("'", "e")]:
         cs.append({"kind": "e2e", "sig": "$", "tree": {"a": 1}, "tagkey": "value", "tagtext": hx("${nope:%s},required=false" % d), "ftype": "string",
@@ -664,7 +675,7 @@ def run(ctx):
         if rc:
             cases = [dict(rc, id=1)]
     else:
-        n_raw, n_dast, n_e2e, n_sc, n_fmt = (1400, 700, 360, 800, 30) if ctx.quick() else (14000, 9000, 3000, 12000, 300)
+        n_raw, n_dast, n_e2e, n_sc, n_fmt = (1400, 700, 360, 800, 30) if ctx.quick() else (30000, 20000, 6000, 24000, 600)
         cid = len(cases) + 1
         for _ in range(n_raw):
             gen.append(gen_direct(rng, cid)); cid += 1
